@@ -196,7 +196,8 @@ def registry():
                                      lambda g, v: st.InitialState(**dict({a: getattr(v, a) for a in v.attributes},
                                                                          position=v.position + 1e-6))],
                    "initial_center_lanelet_ids": [p_set_add()], "initial_shape_lanelet_ids": [p_set_add()],
-                   "initial_signal_state": [lambda g, v: st.SignalState(time_step=0, horn=True, braking_lights=True)],
+                   "initial_signal_state": [lambda g, v: st.SignalState(time_step=0, horn=not bool(getattr(v, "horn", False)),
+                                                                      braking_lights=True)],
                    "signal_series": [lambda g, v: list(v or []) + [g.signal_state(44)]]}
     R["StaticObstacle"] = (lambda g: (StaticObstacle, g.obstacle_common_kw(g.r.randint(1, 99), True),
                                       {"obstacle_id": 5, "obstacle_type": ObstacleType.CAR,
